@@ -2,7 +2,7 @@ PROPERTY = "C01"
 LEVEL = "proof"
 # Props.C01: the property theorems; Lemmas.CharsLink / Lemmas.LexerMask: the link theorems that tie the model to
 # the regenerated tables and constants (audited together so that a changed table shows up as a failed obligation)
-LEAN_MODULES = ["CifModel.Props.C01", "CifModel.Props.C01parse", "CifModel.Lemmas.CharsLink", "CifModel.Lemmas.LexerMask"]
+LEAN_MODULES = ["CifModel.Props.C01", "CifModel.Props.C01parse", "CifModel.Props.C01Render", "CifModel.Lemmas.CharsLink", "CifModel.Lemmas.LexerMask"]
 REQUIRED = [
     "CifModel.C01_lex_value", "CifModel.C01_lex_value_loop", "CifModel.C01_lex_value_after_ws", "CifModel.C01_nextValue", "CifModel.C01_lex_key",
     "CifModel.C01_lex_name", "CifModel.C01_lex_bracket", "CifModel.C01_lex_keyword",
@@ -16,6 +16,9 @@ REQUIRED = [
     "CifModel.C01_cif2_brackets_invalid", "CifModel.C01_error_free_policy_independent", "CifModel.C01_cstr_id",
     "CifModel.C01_structure", "CifModel.C01_parse_render_partial", "CifModel.C01_layout_independent",
     "CifModel.C01_feeds_of_lex", "CifModel.C01_feeds_instance", "CifModel.C01_parse_render_instance",
+    # the lexical glue in general and the end-to-end theorems (Props/C01Render.lean, Lemmas/FeedsRender.lean)
+    "CifModel.C01_feeds", "CifModel.C01_parse_render", "CifModel.C01_layout_independent_render",
+    "CifModel.C01_presentation_independent", "CifModel.C01_render_instance_hyps", "CifModel.C01_render_instance",
 ]
 GEN = ["CharClass", "ErrCodes"]
 FAMILIES = ["lex", "parsedoc"]
@@ -47,9 +50,17 @@ PARTIAL = [
     "sequence of every well-formed abstract document of Spec/Grammar.lean (blocks, one level of save frames, scalars, loops, lists / "
     "tables of any depth, every presentation incl. folded / prefixed text fields) the productions report nothing, return CIF_OK and "
     "store exactly denote(d), under every policy (Lemmas/ParserStructure.lean: structural induction, store view lemmas).  "
-    "C01_parse_render is proved as C01_parse_render_partial and C01_layout_independent with ONE hypothesis left: that the characters "
-    "make the scanner deliver the token sequence of the document (`Feeds`; for render(d, layout) this is the composition of the "
-    "scanner group's C01_lex_* theorems along the document, which is carried out for ONE document only — C01_feeds_instance / C01_parse_render_instance: `data_a _x 'v w'` + newline, every policy — as the pattern and as non-vacuity of the hypothesis, not for all documents and layouts); C01_parse_render_full stays a def.  Instances "
+    "C01_PARSE_RENDER is proved WITHOUT a hypothesis about the scanner (Props/C01Render.lean): C01_feeds (Lemmas/FeedsRender.lean) "
+    "shows, by ONE induction over the typed pieces of the rendering and the scanner group's C01_lex_* theorems, that for every "
+    "document and layout accepted by the decidable predicate C01_feedOk (strings admissible in their presentation, non-blank names "
+    "and codes, quoted keys, brackets / keys / triple quotes in CIF 2.0 only; separators of well-formed atoms, non-empty where a "
+    "token needs whitespace, no comment glued to a token, text fields at the beginning of a line and ';'-led bare values not) whose "
+    "rendering has no line over 2048 characters, the scanner hands out exactly tokensOf(d) silently; C01_parse_render = "
+    "C01_parse_render_partial o C01_feeds (fuel and first-character side conditions discharged too), C01_layout_independent_render "
+    "and C01_presentation_independent follow.  C01_feedOk is a predicate of its own beside gJ's layoutOk (neither implies the "
+    "other: a text field directly behind a table key is not renderable by the printer and is refused; optional separators may "
+    "not begin with a comment when they follow a value); "
+    "C01_parse_render_full stays a def.  Instances "
     "incl. the three combinations named in the property's rationale are evaluated by the kernel, and the quantifier over documents "
     "x layouts at the character level is covered by the `parsedoc` correspondence family (grammar-directed "
     "documents x random layouts through the real parser, oracle: no callback, dump = denote(doc) computed in Python).",
